@@ -67,7 +67,13 @@ func (a *Activation) callCommon(c *ssa.CallCommon, st *State, pos token.Pos, pre
 		fn := fv.Clo.Fn.(*ssa.Function)
 		return a.callStatic(fn, args, fv.Clo.Bindings, st, pos, sig)
 	}
-	// function value of unknown code
+	// function value of unknown code: a contract may be attached to its named function type
+	if nt, ok := types.Unalias(c.Value.Type()).(*types.Named); ok {
+		key := "functype:" + typeKey(nt)
+		if cons := a.t.eng.con.Funcs[key]; len(cons) > 0 {
+			return a.opaqueFuncTypeContract(cons[0], fv, args, sig, st, pos)
+		}
+	}
 	if a.hasClause("purecalls") {
 		return a.pureApply(fv, args, sig, st, pos)
 	}
@@ -313,6 +319,14 @@ func (a *Activation) opaqueCallX(fv Val, args []Val, sig *types.Signature, st *S
 	if havoc {
 		st = t.havocState(st, t.eng.keepAcrossOpaque)
 	}
+	// unknown code may allocate
+	{
+		t.regArray("$now", "Int")
+		old := t.lookup(st, "$now")
+		nn := t.fresh("now@o", "Int")
+		t.assume(st.pc, "(>= "+nn+" "+old+")")
+		t.set(st, "$now", nn)
+	}
 	// results
 	var res []Val
 	j := 0
@@ -349,17 +363,24 @@ func (a *Activation) opaqueWithContract(con *FuncContract, recv Val, method stri
 		t.pureDone[key] = true
 		t.assume(st.pc, "(> "+fv.S+" 0)")
 	}
-	pure := false
-	for _, c := range con.Clauses {
-		if c.Kind == "modifies" && strings.TrimSpace(c.Expr) == "nothing" {
-			pure = true
-		}
-	}
+	pure := con.hasClause("modifies") && !con.hasClause("havoc")
 	pre := st.clone()
 	var out *State
 	var res []Val
 	out, res = a.opaqueCallX(fv, args, sig, st, pos, con.Full, !pure)
 	vars := map[string]Val{"self": recv}
+	{
+		menv := &ExprEnv{t: t, st: pre, old: pre, vars: vars, pkg: con.Pkg, callBase: pre}
+		targets, _, _ := t.resolveMods(menv, con)
+		for _, m := range targets {
+			if m.ref != "" && m.array != "" {
+				cur := t.lookup(out, m.array)
+				srt := t.sortOfArray(m.array)
+				inner := strings.TrimSuffix(strings.TrimPrefix(srt, "(Array Int "), ")")
+				t.set(out, m.array, sApp("store", cur, m.ref, t.fresh(m.array+"@cv", inner)))
+			}
+		}
+	}
 	for i := 0; i < sig.Params().Len() && i < len(args); i++ {
 		n := sig.Params().At(i).Name()
 		if n == "" || n == "_" {
@@ -479,6 +500,41 @@ func (a *Activation) pureApply(fv Val, args []Val, sig *types.Signature, st *Sta
 	return st, res
 }
 
+// opaqueFuncTypeContract: call of a function value whose named type carries an assumed contract (e.g. context.CancelFunc).
+func (a *Activation) opaqueFuncTypeContract(con *FuncContract, fv Val, args []Val, sig *types.Signature, st *State, pos token.Pos) (*State, []Val) {
+	t := a.t
+	t.assumed["assumed contract of function type (trusted): "+con.Full] = true
+	pure := false
+	for _, c := range con.Clauses {
+		if c.Kind == "modifies" && !strings.Contains(c.Expr, "*") {
+			pure = true
+		}
+	}
+	pre := st.clone()
+	out, res := a.opaqueCallX(fv, args, sig, st, pos, con.Full, !pure)
+	vars := map[string]Val{"self": fv}
+	for i, r := range res {
+		vars[fmt.Sprintf("result_%d", i)] = r
+	}
+	env := &ExprEnv{t: t, st: pre, old: pre, vars: vars, pkg: con.Pkg, callBase: pre}
+	targets, _, _ := t.resolveMods(env, con)
+	for _, m := range targets {
+		if m.ref != "" && m.array != "" {
+			cur := t.lookup(out, m.array)
+			srt := t.sortOfArray(m.array)
+			inner := strings.TrimSuffix(strings.TrimPrefix(srt, "(Array Int "), ")")
+			t.set(out, m.array, sApp("store", cur, m.ref, t.fresh(m.array+"@cv", inner)))
+		}
+	}
+	penv := &ExprEnv{t: t, st: out, old: pre, vars: vars, pkg: con.Pkg, callBase: pre}
+	for _, c := range con.Clauses {
+		if c.Kind == "ensures" {
+			t.assume(out.pc, penv.evalBool(c.Expr, c.Src))
+		}
+	}
+	return out, res
+}
+
 // keepAcrossOpaque: arrays preserved across a call into unknown code.
 func (e *Eng) keepAcrossOpaque(name string) bool {
 	if strings.HasPrefix(name, "box:") {
@@ -510,6 +566,12 @@ func (e *Eng) keepAcrossOpaque(name string) bool {
 // disjoint from real function values.
 func (t *Task) mthTerm(method string, recv string) string {
 	f := t.declareFun("$mth", []string{"Int", "Int"}, "Int")
+	if !t.pureDone["mthaxiom"] {
+		t.pureDone["mthaxiom"] = true
+		fm := t.declareFun("$mthm", []string{"Int"}, "Int")
+		fr := t.declareFun("$mthr", []string{"Int"}, "Int")
+		t.lateFacts = append(t.lateFacts, "(forall ((m Int) (r Int)) (! (and (= ("+fm+" ("+f+" m r)) m) (= ("+fr+" ("+f+" m r)) r) (= ("+t.fkind()+" ("+f+" m r)) 3) (> ("+f+" m r) 0)) :pattern (("+f+" m r))))")
+	}
 	id := t.eng.methID(method)
 	term := sApp(f, sInt(int64(id)), recv)
 	key := "mthinj:" + term
@@ -1024,6 +1086,13 @@ func (a *Activation) loopHead(li *loopInfo, b *ssa.BasicBlock, st *State) *State
 		v := env2.evalBool(c.Expr, c.Src)
 		t.assume(nst.pc, v)
 	}
+	// call counters only grow
+	if anyCalls {
+		if _, ok := t.arrSort["$calls"]; ok {
+			nc, oc := t.lookup(nst, "$calls"), t.lookup(st, "$calls")
+			t.assume(nst.pc, "(forall ((|r!m| Int)) (! (>= (select "+nc+" |r!m|) (select "+oc+" |r!m|)) :pattern ((select "+nc+" |r!m|))))")
+		}
+	}
 	// implicit invariant: the call counters change only where the contract's modifies clauses allow
 	if anyCalls {
 		if f := a.callsFrame(nst, "r!q"); f != "" {
@@ -1048,6 +1117,9 @@ func (a *Activation) callsFrame(st *State, r string) string {
 	t.quantDepth = saved
 	var prem []string
 	for _, m := range targets {
+		if m.isPrefix && m.array == "" {
+			return "" // modifies *: no claim about the counters
+		}
 		if m.callsOf != "" {
 			prem = append(prem, sNot(sEq(smtName(r), m.callsOf)))
 		}
@@ -1228,6 +1300,11 @@ func (a *Activation) loopModSet(li *loopInfo) (map[string]bool, bool) {
 		case ssa.CallInstruction:
 			c := in.Common()
 			if c.IsInvoke() {
+				iname := typeKey(c.Value.Type()) + "." + c.Method.Name()
+				if cons := a.t.eng.con.Funcs[iname]; len(cons) > 0 && cons[0].hasClause("modifies") && !cons[0].hasClause("havoc") {
+					mods["$anycalls"] = true
+					return
+				}
 				all = true
 				return
 			}
@@ -1397,6 +1474,10 @@ func (a *Activation) guardCheck(st *State, prefix, ref string, pos token.Pos, wr
 				mref := a.mutexRefOf(st, m, ref)
 				t.regArray("$held", "(Array Int Bool)")
 				held := sApp("select", t.lookup(st, "$held"), mref)
+				// objects allocated by the function under verification are not shared yet
+				t.regArray("$now", "Int")
+				age := t.declareFun("$age", []string{"Int"}, "Int")
+				held = sOr(held, "(>= "+sApp(age, ref)+" "+t.lookup(a.rootAct().entry, "$now")+")")
 				a.arith["guard"]++
 				name := fmt.Sprintf("%s#guarded[%s.%s:%d]", fullName(a.fn), m.Type, g, a.arith["guard"])
 				o := t.oblige("guarded", name, "C14.guarded."+m.Type+"."+g, st.pc, held, posStr(t.eng.fset, pos), "access to "+g+" requires "+m.Mutex)
